@@ -14,6 +14,10 @@ CONFIGS = {
     'v5-pmsa': dict(arch=5, msa='PMSA', sec=False),
     'v4-pmsa': dict(arch=4, msa='PMSA', sec=False),
     'v6-vmsa': dict(arch=6, msa='VMSA', sec=False),
+    # configuration files that differ from the others in their reset_values section only (C20: instances created from
+    # files with different reset values must not see each other's)
+    'v6-pmsa-sec-rv': dict(arch=6, msa='PMSA', sec=True, reset_values=dict(VBAR=0x40, DACR=0x55555555, ACTLR=0x5)),
+    'v7-vmsa-sec-rv': dict(arch=7, msa='VMSA', sec=True, reset_values=dict(VBAR=0x11000, DACR=0xFFFFFFFF)),
 }
 
 RAM_A = (0x0, 0x8000)
